@@ -6,7 +6,10 @@ package main
 import (
 	"fmt"
 	"go/ast"
+	"go/parser"
 	"go/token"
+	"os"
+	"path/filepath"
 	"sort"
 	"strconv"
 	"strings"
@@ -24,11 +27,13 @@ const (
 	kStruct
 	kFunc
 	kTuple
+	kAbs // the state of an abstract (wrapped) container
 )
 
 type ty struct {
 	K       kind
 	S       *structInfo
+	A       *absIface
 	Params  []ty
 	Results []ty
 }
@@ -40,12 +45,23 @@ type fieldInfo struct {
 	Container bool // pointer to a struct of the same package: becomes a parameter, not a field
 }
 
+// an abstract container reached through a struct field: its methods are fields of a generated record
+type absIface struct {
+	Field   string // the Go field name: record <Field>_iface, variable <Field>_I
+	Dir     string // package directory of the wrapped type
+	Type    string // its type name
+	Pure    map[string]bool
+	Methods map[string]*funcInfo // the methods called so far
+	pos     token.Pos
+}
+
 type structInfo struct {
-	Name   string
-	Dir    string
-	Unit   *unit
-	Fields []*fieldInfo
-	pos    token.Pos
+	Ignored []string
+	Name    string
+	Dir     string
+	Unit    *unit
+	Fields  []*fieldInfo
+	pos     token.Pos
 }
 
 func (s *structInfo) field(n string) *fieldInfo {
@@ -83,6 +99,8 @@ type funcInfo struct {
 	Params    []param
 	Results   []param // Name == "" when unnamed
 	Writes    bool
+	Abs       *absIface       // method of an abstract interface (no body)
+	Variadic  bool            // the last parameter is variadic (a slice)
 	Partial   bool            // may panic or runs a fuelled loop: result is an option
 	Fuel      bool            // takes a fuel parameter
 	Needs     map[string]bool // container fields needed as parameters
@@ -97,6 +115,7 @@ type unit struct {
 	Dir      string
 	Imports  map[string]string // local package name -> directory relative to repo
 	Structs  []*structInfo
+	Abs      []*absIface
 	Funcs    []*funcInfo // translated, in emission order
 	Skipped  [][2]string
 	NotSel   []string
@@ -108,9 +127,132 @@ type unit struct {
 type translator struct {
 	fset    *token.FileSet
 	units   []*unit
-	structs map[string]*structInfo // dir + "." + name
-	methods map[string]*funcInfo   // dir + "." + recv + "." + name ; plain functions: dir + ".." + name
+	structs []*structInfo
+	funcs   []*funcInfo
+	absPkgs map[string][]*ast.File // parsed package directories of abstract containers
+	repo    string
 	errs    []string
+}
+
+// the struct dir.name as seen from unit `from`: its own declaration if it has one, else the first registered
+func (t *translator) findStruct(dir, name string, from *unit) *structInfo {
+	var first *structInfo
+	for _, s := range t.structs {
+		if s.Dir == dir && s.Name == name {
+			if s.Unit == from {
+				return s
+			}
+			if first == nil {
+				first = s
+			}
+		}
+	}
+	return first
+}
+
+func (t *translator) findMethod(s *structInfo, name string) *funcInfo {
+	for _, f := range t.funcs {
+		if f.Recv == s && f.Name == name {
+			return f
+		}
+	}
+	return nil
+}
+
+// a plain (receiver-less) function of package dir
+func (t *translator) findFunc(dir, name string, from *unit) *funcInfo {
+	var first *funcInfo
+	for _, f := range t.funcs {
+		if f.Recv == nil && f.Unit.Dir == dir && f.Name == name {
+			if f.Unit == from {
+				return f
+			}
+			if first == nil {
+				first = f
+			}
+		}
+	}
+	return first
+}
+
+// the method `name` of an abstract container: parameter / result types are read from its Go declaration
+func (t *translator) absMethod(a *absIface, name string, at token.Pos) *funcInfo {
+	if fi, ok := a.Methods[name]; ok {
+		return fi
+	}
+	files, ok := t.absPkgs[a.Dir]
+	if !ok {
+		ents, err := os.ReadDir(filepath.Join(t.repo, a.Dir))
+		if err != nil {
+			t.unsupported(at, "package %s of the abstract container cannot be read: %v", a.Dir, err)
+		}
+		for _, en := range ents {
+			n := en.Name()
+			if en.IsDir() || !strings.HasSuffix(n, ".go") || strings.HasSuffix(n, "_test.go") {
+				continue
+			}
+			file, err := parser.ParseFile(t.fset, filepath.Join(t.repo, a.Dir, n), nil, parser.SkipObjectResolution)
+			if err != nil {
+				t.unsupported(at, "parse error in %s/%s: %v", a.Dir, n, err)
+			}
+			files = append(files, file)
+		}
+		t.absPkgs[a.Dir] = files
+	}
+	var found *ast.FuncDecl
+	var tps map[string]bool
+	for _, file := range files {
+		for _, d := range file.Decls {
+			fd, ok := d.(*ast.FuncDecl)
+			if !ok || fd.Name.Name != name {
+				continue
+			}
+			_, rt, tp, ok := recvInfo(fd)
+			if !ok || rt != a.Type {
+				continue
+			}
+			if found != nil {
+				t.unsupported(at, "method %s.%s declared twice in %s", a.Type, name, a.Dir)
+			}
+			found = fd
+			tps = map[string]bool{}
+			for _, p := range tp {
+				tps[p] = true
+			}
+		}
+	}
+	if found == nil {
+		t.unsupported(at, "abstract container %s.%s has no method %s", a.Dir, a.Type, name)
+	}
+	fi := &funcInfo{Name: name, Coq: a.Field + "_" + name, Abs: a, Writes: !a.Pure[name], Needs: map[string]bool{}, TypeParms: tps, Decl: found}
+	c := tctx{&unit{Dir: a.Dir, Imports: map[string]string{}}, tps}
+	for _, p := range found.Type.Params.List {
+		pt := p.Type
+		if el, isVar := pt.(*ast.Ellipsis); isVar {
+			pt = &ast.ArrayType{Elt: el.Elt}
+			fi.Variadic = true
+		}
+		x := t.resolveType(pt, c)
+		if x.K == kStruct || x.K == kFunc {
+			t.unsupported(at, "abstract method %s.%s takes a struct / function parameter", a.Type, name)
+		}
+		k := len(p.Names)
+		if k == 0 {
+			k = 1
+		}
+		for i := 0; i < k; i++ {
+			fi.Params = append(fi.Params, param{"", x})
+		}
+	}
+	for _, p := range fieldList(found.Type.Results) {
+		x := t.resolveType(p.typ, c)
+		if x.K == kStruct || x.K == kFunc {
+			t.unsupported(at, "abstract method %s.%s returns a struct / function", a.Type, name)
+		}
+		fi.Results = append(fi.Results, param{"", x})
+	}
+	a.Methods[name] = fi
+	return fi
 }
 
 type unsupportedErr struct{ msg string }
@@ -177,6 +319,8 @@ func (t *translator) coqType(x ty, from *unit) string {
 		return "(" + strings.Join(parts, " -> ") + ")"
 	case kTuple:
 		return t.resultType(x.Results, from)
+	case kAbs:
+		return "(" + x.A.Field + "_T " + x.A.Field + "_I)"
 	}
 	return "?"
 }
@@ -226,7 +370,7 @@ func (t *translator) resolveType(e ast.Expr, c tctx) ty {
 		if c.tparm[x.Name] {
 			return ty{K: kElem}
 		}
-		if s, ok := t.structs[c.u.Dir+"."+x.Name]; ok {
+		if s := t.findStruct(c.u.Dir, x.Name, c.u); s != nil {
 			return ty{K: kStruct, S: s}
 		}
 		t.unsupported(x.Pos(), "type %s (not int, bool, the type parameter, or a whitelisted struct)", x.Name)
@@ -249,7 +393,7 @@ func (t *translator) resolveType(e ast.Expr, c tctx) ty {
 	case *ast.SelectorExpr:
 		if id, ok := x.X.(*ast.Ident); ok {
 			if dir, ok := c.u.Imports[id.Name]; ok {
-				if s, ok := t.structs[dir+"."+x.Sel.Name]; ok {
+				if s := t.findStruct(dir, x.Sel.Name, c.u); s != nil {
 					return ty{K: kStruct, S: s}
 				}
 				t.unsupported(x.Pos(), "type %s.%s: not a struct of a whitelisted file", id.Name, x.Sel.Name)
@@ -689,9 +833,18 @@ func (f *fx) sliceFresh(rhs ast.Expr) {
 }
 
 // call: returns the Gallina application, the Go result types and (for whitelisted functions) its info
+func (f *fx) sliceLit(els []string) string {
+	if len(els) == 0 {
+		return "(@Datatypes.nil Z)"
+	}
+	return "[" + strings.Join(els, "; ") + "]"
+}
+
 func (f *fx) call(c *ast.CallExpr, e env) (string, []ty, *funcInfo) {
-	if c.Ellipsis != token.NoPos {
-		f.bad(c.Pos(), "variadic call")
+	if _, isSel := c.Fun.(*ast.SelectorExpr); c.Ellipsis != token.NoPos && !isSel {
+		if id, ok := c.Fun.(*ast.Ident); !ok || f.t.findFunc(f.u.Dir, id.Name, f.u) == nil {
+			f.bad(c.Pos(), "variadic call f(xs...) of something that is not a whitelisted function")
+		}
 	}
 	switch fn := c.Fun.(type) {
 	case *ast.Ident:
@@ -739,17 +892,21 @@ func (f *fx) call(c *ast.CallExpr, e env) (string, []ty, *funcInfo) {
 			}
 			return s + ")", vi.ty.Results, nil
 		}
-		if info, ok := f.t.methods[f.u.Dir+".."+fn.Name]; ok {
+		if info := f.t.findFunc(f.u.Dir, fn.Name, f.u); info != nil {
 			return f.apply(c, info, "", nil, e)
 		}
 		f.bad(c.Pos(), "call of %s (not a whitelisted function, len, make or a function-typed parameter)", fn.Name)
 	case *ast.SelectorExpr:
 		rs, tr := f.expr(fn.X, e)
+		if tr.K == kAbs {
+			info := f.t.absMethod(tr.A, fn.Sel.Name, c.Pos())
+			return f.apply(c, info, rs, fn.X, e)
+		}
 		if tr.K != kStruct {
 			f.bad(c.Pos(), "method call .%s on something that is not a whitelisted struct", fn.Sel.Name)
 		}
-		info, ok := f.t.methods[tr.S.Dir+"."+tr.S.Name+"."+fn.Sel.Name]
-		if !ok {
+		info := f.t.findMethod(tr.S, fn.Sel.Name)
+		if info == nil {
 			f.bad(c.Pos(), "call of %s.%s, which is not a whitelisted (translated) method", tr.S.Name, fn.Sel.Name)
 		}
 		return f.apply(c, info, rs, fn.X, e)
@@ -759,19 +916,27 @@ func (f *fx) call(c *ast.CallExpr, e env) (string, []ty, *funcInfo) {
 }
 
 func (f *fx) apply(c *ast.CallExpr, info *funcInfo, recv string, recvExpr ast.Expr, e env) (string, []ty, *funcInfo) {
-	if info.text == "" && info != f.fi && f.dry == 0 {
+	if info.Abs == nil && info.text == "" && info != f.fi && f.dry == 0 {
 		// callee must already be emitted (topological order); recursion is refused
 		f.bad(c.Pos(), "call of %s, which is not translated before %s (recursion or unit order)", info.Name, f.fi.Name)
 	}
 	if info == f.fi {
 		f.bad(c.Pos(), "recursive call")
 	}
-	if info.Unit != f.u {
+	if info.Abs == nil && info.Unit != f.u {
 		f.u.Deps[info.Unit.Spec.Module] = true
 	}
-	s := "(" + qual(info.Unit, f.u, info.Coq)
+	var s string
+	if info.Abs != nil {
+		s = "(" + info.Abs.Field + "_" + info.Name + " " + info.Abs.Field + "_I"
+	} else {
+		s = "(" + qual(info.Unit, f.u, info.Coq)
+	}
 	if info.Fuel {
 		f.bad(c.Pos(), "call of the fuelled function %s", info.Name)
+	}
+	if info.Abs != nil {
+		s += " " + recv
 	}
 	if info.Recv != nil {
 		s += " " + recv
@@ -789,15 +954,39 @@ func (f *fx) apply(c *ast.CallExpr, info *funcInfo, recv string, recvExpr ast.Ex
 			s += " " + vname(cf.Name)
 		}
 	}
-	if len(c.Args) != len(info.Params) {
+	if c.Ellipsis != token.NoPos && !info.Variadic {
+		f.bad(c.Pos(), "f(xs...) on a function that is not variadic")
+	}
+	args := c.Args
+	packed := ""
+	if info.Variadic && c.Ellipsis == token.NoPos {
+		// f(a, b, c) with a variadic last parameter: the extra arguments are a fresh slice
+		fixed := len(info.Params) - 1
+		if len(args) < fixed {
+			f.bad(c.Pos(), "call of %s with too few arguments", info.Name)
+		}
+		var els []string
+		for _, a := range args[fixed:] {
+			as, ta := f.expr(a, e)
+			if ta.K != kElem && ta.K != kInt {
+				f.bad(a.Pos(), "variadic argument that is not T / int")
+			}
+			els = append(els, as)
+		}
+		packed = f.sliceLit(els)
+		args = args[:fixed]
+	} else if len(args) != len(info.Params) {
 		f.bad(c.Pos(), "call of %s with a wrong number of arguments", info.Name)
 	}
-	for i, a := range c.Args {
+	for i, a := range args {
 		as, ta := f.expr(a, e)
 		if ta.K != info.Params[i].Ty.K {
 			f.bad(a.Pos(), "argument of unexpected type")
 		}
 		s += " " + as
+	}
+	if packed != "" {
+		s += " " + packed
 	}
 	var rs []ty
 	for _, r := range info.Results {
@@ -852,7 +1041,7 @@ func (f *fx) assign(lhs ast.Expr, val string, tv ty, define bool, e env) (string
 		if fl.Container {
 			f.bad(l.Pos(), "assignment to the container reference %s", fl.Name)
 		}
-		if fl.Ty.K != tv.K {
+		if fl.Ty.K != tv.K || fl.Ty.S != tv.S || fl.Ty.A != tv.A {
 			f.bad(l.Pos(), "assignment of a value of another type to field %s", fl.Name)
 		}
 		if vi.ty.S.Unit != f.u {
@@ -905,6 +1094,16 @@ func (f *fx) callStmt(c *ast.CallExpr, e env) (prefix string, temps []string, rs
 	}
 	if info != nil && info.Writes {
 		sel := c.Fun.(*ast.SelectorExpr)
+		if fs, isSel := sel.X.(*ast.SelectorExpr); isSel {
+			// x.field.M(...): the new state of the nested / abstract container is stored back into x.field
+			if _, isId := fs.X.(*ast.Ident); !isId {
+				f.bad(c.Pos(), "mutating method %s called on a doubly nested field", info.Name)
+			}
+			_, tf := f.selector(fs, e)
+			nt := f.fresh()
+			p, e3 := f.assign(fs, nt, tf, false, e)
+			return "let '(" + nt + ", " + pat + ") := " + s + " in\n" + p, temps, rs, e3
+		}
 		id, ok := sel.X.(*ast.Ident)
 		if !ok {
 			f.bad(c.Pos(), "mutating method %s called on something that is not a variable (container / nested struct)", info.Name)
@@ -1247,22 +1446,23 @@ func (f *fx) forStmt(n *ast.ForStmt, rest []ast.Stmt, e env, k cont, next cont, 
 	if n.Init != nil && n.Cond != nil && n.Post != nil {
 		init, ok := n.Init.(*ast.AssignStmt)
 		if !ok || init.Tok != token.DEFINE || len(init.Lhs) != 1 || len(init.Rhs) != 1 {
-			f.bad(n.Pos(), "for loop whose initialiser is not `i := 0`")
+			f.bad(n.Pos(), "for loop whose initialiser is not `i := start`")
 		}
 		iv, ok := init.Lhs[0].(*ast.Ident)
-		lit, ok2 := init.Rhs[0].(*ast.BasicLit)
-		if !ok || !ok2 || lit.Value != "0" {
-			f.bad(n.Pos(), "for loop whose initialiser is not `i := 0`")
+		if !ok {
+			f.bad(n.Pos(), "for loop whose initialiser is not `i := start`")
 		}
 		if _, exists := e.vars[iv.Name]; exists {
 			f.bad(n.Pos(), "loop variable %s shadows an outer variable", iv.Name)
 		}
+		start, ts := f.expr(init.Rhs[0], e)
+		f.want(init.Rhs[0], ts, kInt)
 		cond, ok := n.Cond.(*ast.BinaryExpr)
-		if !ok || cond.Op != token.LSS {
-			f.bad(n.Pos(), "for loop whose condition is not `i < bound`")
+		if !ok || (cond.Op != token.LSS && cond.Op != token.LEQ) {
+			f.bad(n.Pos(), "for loop whose condition is not `i < bound` / `i <= bound`")
 		}
 		if ci, ok := cond.X.(*ast.Ident); !ok || ci.Name != iv.Name {
-			f.bad(n.Pos(), "for loop whose condition is not `i < bound`")
+			f.bad(n.Pos(), "for loop whose condition is not `i < bound` / `i <= bound`")
 		}
 		post, ok := n.Post.(*ast.IncDecStmt)
 		if !ok || post.Tok != token.INC {
@@ -1278,6 +1478,18 @@ func (f *fx) forStmt(n *ast.ForStmt, rest []ast.Stmt, e env, k cont, next cont, 
 		f.want(cond.Y, tb, kInt)
 		if readVars(cond.Y)[iv.Name] {
 			f.bad(n.Pos(), "loop bound mentions the loop variable")
+		}
+		// the values the loop variable takes: start, start+1, ... (< bound or <= bound)
+		lit, isLit := init.Rhs[0].(*ast.BasicLit)
+		var rangeTerm string
+		if isLit && lit.Value == "0" && cond.Op == token.LSS {
+			rangeTerm = "(List.map Z.of_nat (List.seq 0 (Z.to_nat " + bound + ")))"
+		} else {
+			count := "(" + bound + " - " + start + ")"
+			if cond.Op == token.LEQ {
+				count = "((" + bound + " + 1) - " + start + ")"
+			}
+			rangeTerm = "(List.map (fun k : nat => " + start + " + Z.of_nat k) (List.seq 0 (Z.to_nat " + count + ")))"
 		}
 		ein := e.deeper().with(iv.Name, ty{K: kInt})
 		ein = env{vars: ein.vars, depth: ein.depth + 1} // the loop variable itself is one level above the body
@@ -1312,7 +1524,7 @@ func (f *fx) forStmt(n *ast.ForStmt, rest []ast.Stmt, e env, k cont, next cont, 
 			binder = "'" + tuple(ms)
 		}
 		return "let " + letPat(ms) + " :=\n  List.fold_left (fun " + binder + " (" + vname(iv.Name) + " : Z) =>\n" + b +
-			")\n  (List.map Z.of_nat (List.seq 0 (Z.to_nat " + bound + "))) " + tuple(ms) + " in\n" + next(e)
+			")\n  " + rangeTerm + " " + tuple(ms) + " in\n" + next(e)
 	}
 	// ---- for cond { body }  (fuelled)
 	if n.Init == nil && n.Post == nil && n.Cond != nil {
